@@ -4,6 +4,7 @@ let () =
   let run = match layer with
     | "codec" -> L_codec.run
     | "prog" -> L_prog.run
+    | "sched" -> L_sched.run
     | _ -> prerr_endline "usage: vmodel <codec>"; exit 2 in
   try
     while true do
